@@ -136,7 +136,23 @@ func (c02) Run(c *Ctx, i int) CaseResult {
 			feats = map[string]bool{"multi-operation-shared-variable-name": true}
 		}
 	}
-	res := CaseResult{ID: id, Key: fmt.Sprint(in.Spec.SDLs, in.Spec.Priorities, in.Query)}
+	if i >= len(FedCorpus) && i%5 == 1 {
+		// the client supplies only SOME of the declared (defaulted) variables, and the root fields go to different
+		// services using different variables: every call must carry values of its own step's variables only
+		r := c.Rand(i + 500002)
+		in.Spec = FixedFed()
+		in.Query = `query Partial($k: ID = "u2", $s: Boolean = true, $t: Boolean = false, $u: Boolean = true) { user(id: $k) { firstName nick @include(if: $u) } allPhotos { url @include(if: $s) likes @skip(if: $t) } me { firstName @skip(if: $t) lastName @include(if: $s) } }`
+		all := map[string]interface{}{"k": []string{"u1", "u2", "u3"}[r.Intn(3)], "s": r.Intn(2) == 0, "t": r.Intn(2) == 0, "u": r.Intn(2) == 0}
+		in.Vars = map[string]interface{}{}
+		for k, v := range all {
+			if r.Intn(2) == 0 {
+				in.Vars[k] = v
+			}
+		}
+		in.OpName, in.OddIDs = "", false
+		feats = map[string]bool{"partially-supplied-variables": true, fmt.Sprintf("supplied-%d-of-4", len(in.Vars)): true}
+	}
+	res := CaseResult{ID: id, Key: fmt.Sprint(in.Spec.SDLs, in.Spec.Priorities, in.Query, in.Vars)}
 	fc, err := RunFed(c, in, 5*time.Second)
 	if err != nil {
 		res.Fails = append(res.Fails, Failure{Channel: "harness", Classifier: "harness-error", What: err.Error(), Input: in})
